@@ -33,6 +33,8 @@ def run(ctx):
         n, st = s.rsplit('|', 1)
         observed.setdefault(n, set()).add(int(st))
     unknown_flags = json.load(open(os.path.join(d3, 'summary.json')))['unknown_boolean_flags'] or []
+    for fl in json.load(open(os.path.join(d3, 'summary.json'))).get('unknown_value_flags') or []:
+        ctx.drift.append('the tool has a switch -%s <value> that no specification here models: what it loads or changes is not judged' % fl)
     # runtime names (every registered lint gets an event, in the census or not)
     names = sorted(set(observed) | {r['name'] for r in ex['registrations']})
     byname = {r['name']: r for r in ex['registrations']}
